@@ -19,6 +19,24 @@ CLAIMED = {
  "C06": ("model_checking", "5 C06",
    "Ref.tla stores one gradient per memory owner; a view's gradient is the view's index map applied to it. Availability, value and memory sharing of every view gradient (gshare clause) are compared on TLC-enumerated and random programs in which base and views are consumed in varying orders.",
    "explicit TLA+ reference checked with TLC; behaviour replay + trace validation incl. gradient sharing matrices"),
+ "C07": ("model_checking", "5 C07",
+   "Ref.tla carries the user-visible life cycle of creators, consumers and gradients across epochs (backward / clear_graph / null_grad / re-use / in-place updates; a cleared tensor becomes a leaf - change of variables on the tangents). Multi-epoch programs (TLC-enumerated and random, incl. repeated identical iterations) are checked after every statement for: creator None and no recorded consumers upstream after backward, exact gradients in every epoch (no accumulation), gradient lifetime (gone at the next non-view use / in-place update / traversal, views too), and - with the cyclic GC disabled - that no Tensor or Operation object survives once it is unreachable from the caller's handles.",
+   "explicit TLA+ reference checked with TLC; behaviour replay + trace validation incl. release and reference-counting clauses"),
+ "C09": ("model_checking", "5 C09",
+   "Programs with several terminals over shared upstream tensors interleave backward, clear_graph, re-use, in-place updates and new ops before a final backward. The trace specification admits exactly two outcomes: InvalidBackprop (only if part of the graph was cleared after it was recorded) or gradients equal to the reference adjoint of the recorded computation truncated at cleared tensors. The known defect F-C09-1 is a named trigger predicate in Ref.tla.",
+   "explicit TLA+ reference checked with TLC; behaviour replay + trace validation with admissible-failure rule"),
+ "C10": ("model_checking", "5 C10",
+   "Ref.tla gives constants no perturbation variables and implements the constant rule (all inputs constant unless the keyword is given; integer/boolean tensors always constant; in-place target keeps its flag). Programs with random constant flags, integer leaves, constant= keywords, plain arrays and Python scalars are checked for the flag of every result, for constant=False on integer results raising, for constants never holding a gradient and for exact gradients of all other tensors.",
+   "explicit TLA+ reference checked with TLC; behaviour replay + trace validation"),
+ "C12": ("model_checking", "5 C12",
+   "Every caller-owned array handed to MyGrad (operands, index arrays, seeds) is check-summed after every statement (inputs clause); values of all tensors are compared after backward; gradient sharing must equal the reference's family relation (gshare) and no gradient may alias any tensor's data (gdata); in-place edits of gradients (editgrad statements) must propagate exactly along the reference's sharing relation.",
+   "explicit TLA+ reference checked with TLC; behaviour replay + trace validation with aliasing / checksum clauses"),
+ "C13": ("model_checking", "5 C13",
+   "Failing statements (bad shapes, axes, indices, broadcasts, reshape sizes; on bases and on views; bad seeds; constant=False on integer results) are inserted at random positions. A statement NumPy rejects must raise in MyGrad and the specification state is unchanged (only the target family's stale gradient may be dropped); all later statements, the final values and the final gradients are then validated against the reference, i.e. equal those of the program without the failing statements.",
+   "explicit TLA+ reference checked with TLC; trace validation with failing statements as stutter steps"),
+ "C14": ("model_checking", "5 C14",
+   "backward(seed) is specified in Ref.tla as the tangent of sum(L*seed); programs with non-scalar terminals are run with no seed, Python scalars, 0-d/broadcastable/full arrays and tensors, and with non-broadcastable or terminal-broadcasting seeds (must raise, no gradient written). Every stored gradient must be an ndarray with the tensor's shape and dtype (gtyped clause), incl. float16/float32 and 0-d tensors.",
+   "explicit TLA+ reference checked with TLC; behaviour replay + trace validation"),
  "C08": ("model_checking", "5 C08",
    "MemGuard.tla transcribes lock_arr_writeability / unique_arrs_and_bases / _release_lock_on_arr_writeability and the locking steps of Tensor._op together with CPython reference counting (which decides when an operation's finaliser runs). TLC checks (S) arrays of live guarded ops are read-only and (R) flags return to their original value once no live graph refers to an array, exhaustively over every order of drops, clear_graph calls and failing operations (1.5M states at the quick bound). Every behaviour of bounded length and seeded long simulations are replayed with real arrays, tensors, ops and dels, comparing every writeable flag (and, as drift indicator, the lock-table sizes) after every statement.",
    "explicit TLA+ mechanism model checked exhaustively with TLC; all enumerated behaviours and simulated behaviours replayed on the implementation"),
